@@ -16,7 +16,7 @@ TOLERANCES = {"values vs numpy evaluation": "bitwise (NaN == NaN)", "ghost layer
               "operands / results": "byte snapshots, np.shares_memory"}
 RULE = ("Generated: expression trees of depth <= 3 over + - * / ** neg abs > >= < <= & | and the reflected + - * / ** (python scalar "
         "on the left), leaves = CellVariables with random BCs (D/N/R face-wise, periodic), python scalars, ndarrays (right operand "
-        "only); the same for FaceVariables (leaves FaceVariable, python / numpy scalars); funceval / celleval / faceeval with 1..3 "
+        "only); the same for FaceVariables (leaves FaceVariable, python / numpy scalars); funceval / celleval / faceeval with 1..8 "
         "arguments from a pool of elementwise functions; copy().  Oracle: numpy evaluation of the same tree on the interior "
         "(component) arrays; byte snapshots of every operand (values, BC arrays, flags); BC object of the result equal in content "
         "to the left-most variable operand's, not shared; ghost layer of the result from the reference ghost model; "
@@ -37,6 +37,10 @@ FUNCS1 = {'sin': np.sin, 'exp': lambda x: np.exp(np.clip(x, -50, 50)), 'twice': 
 FUNCS2 = {'add': lambda x, y: x + y, 'maximum': np.maximum, 'hyp': lambda x, y: np.sqrt(x * x + y * y), 'first': lambda x, y: x,
           'second_view': lambda x, y: y[...]}
 FUNCS3 = {'where': lambda x, y, z: np.where(x > 0, y, z), 'fma': lambda x, y, z: x * y + z}
+# any number of arguments (the evaluators accept 1..8): position-weighted sum, and a view of the last argument
+FUNCSN = {'wsum': lambda *xs: sum((i + 1.0) * x for i, x in enumerate(xs)), 'last_view': lambda *xs: xs[-1][...]}
+ALLFUNCS = {**FUNCS1, **FUNCS2, **FUNCS3, **FUNCSN}
+MAXARGS = 8
 
 
 # ----------------------------------------------------------------------------- tree generation
@@ -85,8 +89,8 @@ def _case(draw):
         case['tree'] = draw(tree(3, nvars, allow_arr=False, nested_bool=False))
         case['npscalar'] = draw(st.booleans())
     elif kind in ('funceval', 'faceeval'):
-        na = draw(st.integers(1, 3))
-        pool = {1: FUNCS1, 2: FUNCS2, 3: FUNCS3}[na]
+        na = draw(st.sampled_from([1, 2, 3, 1, 2, 3, 4, 5, 6, 7, 8]))
+        pool = {**{1: FUNCS1, 2: FUNCS2, 3: FUNCS3}.get(na, {}), **FUNCSN}
         names = list(pool)
         case['func'] = draw(st.sampled_from(sorted(names)))
         case['args'] = [draw(st.integers(0, nvars - 1)) for _ in range(na)]
@@ -100,7 +104,7 @@ def strategy(tier):
 
 EXHAUSTIVE_NOTE = ("every operator x operand form {variable-variable, variable-scalar, scalar-variable (reflected + - * / **), variable-ndarray} and both "
                    "unary operators, at depth 1, for CellVariables and FaceVariables on all 9 grid classes (fixed small grid, non-default BCs); "
-                   "funceval/celleval/faceeval with every pool function; copy()")
+                   "funceval/celleval/faceeval with every pool function and every arity 1..8 (operands with different BCs, either one first); copy()")
 ENUM_FACES = dict(x=[0.0, 0.4, 1.0], r=[0.5, 0.8, 1.5], thc=[0.0, 1.0, 2.5], ths=[0.4, 1.0, 2.0], ph=[0.0, 1.5, 2.5])
 
 
@@ -118,7 +122,14 @@ def enumerate_cases(tier):
                            lo=dict(kind='R', a=(-gen.expand('generic', 1 + ax, shp, 0.3, 2.0)).tolist(), b=gen.expand('generic', 2 + ax, shp, 0.3, 2.0).tolist(),
                                    c=gen.expand('generic', 3 + ax, shp).tolist()),
                            hi=dict(kind='D', a=np.zeros(shp).tolist(), b=np.ones(shp).tolist(), c=gen.expand('generic', 4 + ax, shp).tolist())))
-        cvars = [dict(init=(gen.expand('quarter', 11 + i, d) + 0.125).tolist(), bc=bc, dirty='clean') for i in range(2)]
+        bc2 = []    # the second variable has other boundary conditions: whose BCs a result carries is part of the property
+        for ax in range(len(d)):
+            shp = bc_shape(d, ax)
+            bc2.append(dict(periodic='none',
+                            lo=dict(kind='D', a=np.zeros(shp).tolist(), b=np.ones(shp).tolist(), c=gen.expand('generic', 34 + ax, shp).tolist()),
+                            hi=dict(kind='R', a=gen.expand('generic', 31 + ax, shp, 0.3, 2.0).tolist(), b=gen.expand('generic', 32 + ax, shp, 0.3, 2.0).tolist(),
+                                    c=gen.expand('generic', 33 + ax, shp).tolist())))
+        cvars = [dict(init=(gen.expand('quarter', 11 + i, d) + 0.125).tolist(), bc=[bc, bc2][i], dirty='clean') for i in range(2)]
         fvars = [dict(comps=[(gen.expand('int', 21 + 5 * i + j, sh) + 0.5 * j).tolist() for j, sh in enumerate(face_shapes(d))]) for i in range(2)]
         trees = [['un', 'neg', ['var', 0]], ['un', 'abs', ['var', 0]]]
         for op in BIN:
@@ -139,6 +150,12 @@ def enumerate_cases(tier):
                 for alias in ('funceval', 'celleval'):
                     yield dict(kind='funceval', grid=g, nvars=2, vars=cvars, func=fn, args=[0, 1, 0][:na], alias=alias, enumerated=True)
                 yield dict(kind='faceeval', grid=g, nvars=2, vars=fvars, func=fn, args=[0, 1, 0][:na], alias='faceeval', enumerated=True)
+        for na in range(1, MAXARGS + 1):
+            for fn in sorted(FUNCSN):
+                for args in ([0] + [1] * (na - 1), [1] + [0] * (na - 1)):
+                    for alias in ('funceval', 'celleval'):
+                        yield dict(kind='funceval', grid=g, nvars=2, vars=cvars, func=fn, args=args, alias=alias, enumerated=True)
+                    yield dict(kind='faceeval', grid=g, nvars=2, vars=fvars, func=fn, args=args, alias='faceeval', enumerated=True)
         yield dict(kind='copy', grid=g, nvars=1, vars=[dict(cvars[0], dirty='value')], enumerated=True)
         yield dict(kind='copy', grid=g, nvars=1, vars=[dict(cvars[0], dirty='bc')], enumerated=True)
 
@@ -306,7 +323,7 @@ def check(case):
             what = f"expression {case['tree']}"
         elif kind == 'funceval':
             args = [vars_[i] for i in case['args']]
-            f = {**FUNCS1, **FUNCS2, **FUNCS3}[case['func']]
+            f = ALLFUNCS[case['func']]
             fn = pf.funceval if case['alias'] == 'funceval' else pf.celleval
             with np.errstate(all='ignore'):
                 got = fn(f, *args)
@@ -412,7 +429,7 @@ def check(case):
         what = f"FaceVariable expression {case['tree']}"
     else:
         args = [fvars[i] for i in case['args']]
-        f = {**FUNCS1, **FUNCS2, **FUNCS3}[case['func']]
+        f = ALLFUNCS[case['func']]
         with np.errstate(all='ignore'):
             got = pf.faceeval(f, *args)
             ref = [np.asarray(f(*[np.array(c, float) for c in comps]))
